@@ -80,7 +80,15 @@ def add_dynamic_children(rng, base):
         extra += [uid]
         base.meta["reduce_uids"] = [uid]
         uid += 1
-        main.append(S("dyn_r", "reduce", "dyn_d", fn="fn2:1"))
+        kwz = {}
+        if rng.random() < 0.5:
+            kwz["zero"] = rng.choice([0, 7])       # with a zero even a single live element keeps a combiner instance alive
+            if rng.random() < 0.6:
+                # ... and the reduction ends (or spends time) with exactly one live key
+                k0 = rng.randrange(3)
+                base.cscripts[uid - 2] = [f"{base.start + 1}|[{k0}]={k0 * 1000 + 1}"] + \
+                    ([f"{base.start + 3}|[{(k0 + 1) % 3}]=77", f"{base.start + 6}|x[{(k0 + 1) % 3}]"] if rng.random() < 0.5 else [])
+        main.append(S("dyn_r", "reduce", "dyn_d", fn="fn2:1", **kwz))
         main.append(S("", "rec", "dyn_r", uid=uid))
         uid += 1
     if "switch" in kind:
